@@ -53,7 +53,10 @@ import LitexProofs.Cdc.SyncReset
     AXI (full) / Wishbone CDC          do not exist in /repo (AXI-full has no ClockDomainCrossing class; wishbone has none)
   litex/soc/cores/uart.py
     _get_uart_fifo, UART(phy_cd)       M Glue.lean uartFifoKind/uartTx/RxFifo  T uart_fifo_async_iff, uart_fifos_cross_iff   tie C + B through UART()
-    UARTBone/JTAG/video/hyperbus/icap  plain users of ClockDomainCrossing/AsyncFIFO with default or 2^k depths: covered by the rows above
+    UARTBone / UARTWishboneBridge(cd)  M Glue.lean uartBoneDomains (who lives in which domain)   T uartbone_ports_in_own_domain, uartbone_crossing_rel
+                                                                               tie C uartbone_domains vs domains MEASURED on the lowered module +
+                                                                               end-to-end byte-order oracle with unrelated clocks + domain audit [r5]
+    JTAG/video/hyperbus/icap           plain users of ClockDomainCrossing/AsyncFIFO with default or 2^k depths: domain audit where they elaborate
   Plain MultiReg users (GPIO, SPI, I2S, video timing CSRs, freqmeter Gray counter): single-bit or quasi-static
     buses, no coherence claimed by the code; not part of C05 (the only multi-bit dynamic one, Monitor's status, is).
   ═══════════════════════════════════════════════════════════════════════════════════════════════════════════════
@@ -881,6 +884,44 @@ theorem uart_fifos_cross_iff (dt dr : Nat) (p : String) :
   · subst h; simp [uartTxFifo, uartRxFifo, uartFifoKind]
   · have h' : ¬ "sys" = p := fun e => h e.symm
     simp [uartTxFifo, uartRxFifo, uartFifoKind, h, h']
+
+/-! ### Users of the crossing: `UARTBone` / `UARTWishboneBridge` with `cd ≠ "sys"`
+
+  The async-FIFO theorems assume that the sink handshake happens at write-clock edges and the source handshake at
+  read-clock edges, i.e. that whatever drives a port of the crossing lives in that port's domain.  `uartBoneDomains`
+  is the domain assignment `UARTBone.__init__` makes (compared on every run with the domains measured on the
+  lowered real module: which clock the PHY's registers, the bridge's registers and each FIFO side really have),
+  and the harness additionally audits every user's lowered fragment (no register of one domain is read by sync
+  logic of another except through a synchroniser or FIFO storage) and drives `UARTBone(cd="uart")` end to end with
+  unrelated clocks. -/
+
+/-- **uartbone_ports_in_own_domain.**  With the assignment the code makes, every port of both crossings is driven
+    from its own domain: `rx_cdc` is written in the PHY's domain and read in the bridge's, `tx_cdc` the other way
+    round; there is a crossing exactly when the two domains differ, and then it is an asynchronous FIFO. -/
+theorem uartbone_ports_in_own_domain (cd : String) :
+    let d := uartBoneDomains cd
+    (∀ p, d.rx = some p → p.1 = d.phy ∧ p.2 = d.bridge) ∧
+    (∀ p, d.tx = some p → p.1 = d.bridge ∧ p.2 = d.phy) ∧
+    (d.rx = none ↔ d.phy = d.bridge) ∧ (d.tx = none ↔ d.phy = d.bridge) ∧
+    (d.phy ≠ d.bridge → cdcKind d.phy d.bridge none false = .afifo 2 false ∧
+                        cdcKind d.bridge d.phy none false = .afifo 2 false) := by
+  by_cases h : cd = "sys"
+  · subst h; simp [uartBoneDomains]
+  · have h' : ¬ "sys" = cd := fun e => h e.symm
+    simp [uartBoneDomains, h, h', cdcKind]
+
+/-- **uartbone_crossing_rel.**  Hence (`cd ≠ "sys"`), with `tw` = edges of the PHY clock and `tr` = edges of the sys
+    clock for the received bytes (and the other way round for the bytes to transmit), both byte streams satisfy the
+    FIFO theorem: what the bridge (resp. the PHY) takes is a prefix of what the PHY (resp. the bridge) handed in —
+    for every relation of the two clocks. -/
+theorem uartbone_crossing_rel (cd : String) (hcd : cd ≠ "sys") (z : α) (ins : List (AFIn α)) :
+    (uartBoneDomains cd).rx = some ((uartBoneDomains cd).phy, (uartBoneDomains cd).bridge) ∧
+    (uartBoneDomains cd).tx = some ((uartBoneDomains cd).bridge, (uartBoneDomains cd).phy) ∧
+    delivered 2 false z (afInit 2 z) ins <+: accepted 2 false z (afInit 2 z) ins := by
+  refine ⟨by simp [uartBoneDomains, hcd], by simp [uartBoneDomains, hcd], afifo_delivered_prefix 2 false z (by omega) ins⟩
+
+example : (uartBoneDomains "uart").show = "phy=uart bridge=sys rx=uart>sys tx=sys>uart" ∧
+    (uartBoneDomains "sys").show = "phy=sys bridge=sys rx=none tx=none" := by decide
 
 /-! ### Non-vacuity: a concrete schedule with coincident edges and both resolutions, on which tokens move -/
 
